@@ -1,0 +1,49 @@
+//go:build verif
+
+package parser
+
+import (
+	"fmt"
+	"io"
+)
+
+// VerifToken is one token produced by the real Lexer.Lex loop
+// (verification builds only).
+type VerifToken struct {
+	ID      int
+	Name    string
+	Literal string
+	Line    int
+	Col     int
+}
+
+// VerifTokens runs Lexer.Lex over the reader until EOF or a lexing error and
+// returns the token stream the parser would see.
+func VerifTokens(r io.Reader, fileName string) (toks []VerifToken, err error) {
+	defer func() {
+		if e := recover(); e != nil {
+			err = fmt.Errorf("%v", e)
+		}
+	}()
+
+	l := NewLexer(NewReader(r, fileName))
+	for {
+		var lval yySymType
+		id := l.Lex(&lval)
+		if id <= 0 || lval.token == nil {
+			break
+		}
+		name := ""
+		if i := id - yyPrivate + 1; i >= 0 && i < len(yyToknames) {
+			name = yyToknames[i]
+		}
+		toks = append(toks, VerifToken{
+			ID:      id,
+			Name:    name,
+			Literal: lval.token.Literal,
+			Line:    lval.token.Position.Line,
+			Col:     lval.token.Position.Column,
+		})
+	}
+	return toks, nil
+}
